@@ -1,0 +1,52 @@
+//go:build verif
+// +build verif
+
+package vm
+
+// Read-only verification hooks (property C16): the jump-destination analysis
+// (analysis.go), the byte-slice helpers of the instruction bodies (common.go)
+// and the memory store (memory.go), exactly as the interpreter uses them.
+// Nothing here is compiled into the node; the file only exists under the
+// `verif` build tag and changes no behaviour.
+
+import (
+	"math/big"
+
+	"github.com/LemoFoundationLtd/lemochain-core/common"
+)
+
+// VerifCodeBitmap returns the bytes of codeBitmap(code).
+func VerifCodeBitmap(code []byte) []byte { return []byte(codeBitmap(code)) }
+
+// VerifDestinations wraps one `destinations` map (the per-code-hash cache of a call tree).
+type VerifDestinations struct{ d destinations }
+
+func NewVerifDestinations() *VerifDestinations { return &VerifDestinations{d: make(destinations)} }
+
+// Has is destinations.has.
+func (v *VerifDestinations) Has(codehash common.Hash, code []byte, dest *big.Int) bool {
+	return v.d.has(codehash, code, dest)
+}
+
+// Len is the number of analysed code hashes.
+func (v *VerifDestinations) Len() int { return len(v.d) }
+
+// Bits returns the cached vector of a code hash.
+func (v *VerifDestinations) Bits(codehash common.Hash) ([]byte, bool) {
+	m, ok := v.d[codehash]
+	return []byte(m), ok
+}
+
+// VerifGetData is getData.
+func VerifGetData(data []byte, start uint64, size uint64) []byte { return getData(data, start, size) }
+
+// VerifGetDataBig is getDataBig.
+func VerifGetDataBig(data []byte, start *big.Int, size *big.Int) []byte {
+	return getDataBig(data, start, size)
+}
+
+// VerifNewMemory returns a Memory whose store is buf[:n] (capacity cap(buf)).
+func VerifNewMemory(buf []byte, n int) *Memory { return &Memory{store: buf[:n]} }
+
+// VerifMemoryBuf returns the backing array of the store up to its capacity.
+func VerifMemoryBuf(m *Memory) []byte { return m.store[:cap(m.store)] }
